@@ -354,7 +354,7 @@ def harnesses(tier, seed):
     # "factorisation_current must be cleared by every mutation of the point set" (so that arbitrary interleavings of replacements,
     # resampling, swaps and shifts never meet a stale QR): C17's one-operation harnesses, from any state with the cache marked current
     from . import c17
-    for h in c17.harnesses('quick', seed):
+    for h in c17.model_harnesses('quick', seed):
         if not h.params['with_h'] and h.params['op'] in ('change_point', 'change_point_nokopt', 'add_new_sample', 'add_new_point', 'swap_points', 'shift_base'):
             h.home = 'C17'
             h.name = 'model:' + h.name
